@@ -74,6 +74,7 @@ PROPS = {
             {'engine': 'verus', 'name': 'merge', 'tier': 'quick', 'role': 'Stream::merge: the unwrapping closure keeps every element of either side unchanged and drops only the side end markers (with binary_select and chain_ops: multiset union)'},
             {'engine': 'verus', 'name': 'setup_senders', 'tier': 'quick', 'role': 'End::setup_senders: block_senders partitions the sender indexes into non-empty groups - singletons for All (broadcast), otherwise exactly the senders of one downstream block per group in sorted-endpoint order - i.e. End.inv, the precondition of End::next, is now PROVED on the real body (HashMap by its map view, the two iterator chains desugared by declared templates)'},
             {'engine': 'verus', 'name': 'setup_endpoints', 'tier': 'quick', 'role': 'RoutingEnd::setup_endpoints: endpoint g is route g (same order, block, predicate) with exactly the senders of that block in sorted-endpoint order; the endpoints partition the senders; the structural part of RoutingEnd.inv (precondition of RoutingEnd::next) is now PROVED on the real body'},
+            {'engine': 'verus', 'name': 'replication', 'tier': 'quick', 'role': 'Replication::intersect (what Stream::zip / iterate rely on when they ask for a single replica with scheduling.replication(Replication::One)): the intersection is the most restrictive of the two requirements, in particular anything intersected with One is One'},
         ],
         'explanation': 'End::next sends one copy of every element to each downstream block group (split) and, with singleton groups (All), to every replica (broadcast).',
         'assumptions': [],
